@@ -19,9 +19,29 @@ CFG = {'streams': [{'name': 'C05x',
          'with 0-3 injected syntax faults (ERROR/MISSING nodes, non-ASCII text) x both modes; every run in its own thread with a 10 s watchdog and '
          'catch_unwind; errors are rendered plain and pretty; non-trivial = failing run or tree with syntax errors | parser part: see C07.py, stream '
          'C05p: hand-written edge cases for every ParseError variant plus valid texts with 1-3 token-/character-level mutations',
- 'explanation': 'Theorems: scan loops always advance and terminate within S|subject| iterations for any regex engine with well-formed spans; no '
-                'stdlib call panics or diverges; the checker never panics on consistent query tables; witness lemmas for the three known '
-                'panic/divergence classes (K1 capture in a shorthand body, K2 recursive shorthand, K3 unbound full-match capture). Streams: outcome '
+ 'explanation': 'Theorems: strict_exec_no_panic (Proofs/NoPanicStrict.v) and lazy_exec_no_panic (Proofs/NoPanicLazy.v): neither interpreter '
+                '(check_globals + execution of all stanzas, for the lazy one also the evaluation phase) ever reaches a Panic site, for every tree, '
+                'file, configuration, fuel, regex engine and cancellation budget, provided WellFormedFile (every scan statement, nested ones '
+                'included, has a regex-table entry for each arm; attribute-shorthand bodies contain no capture expression, which excludes the known '
+                'class K1), GoodMatches / GoodMatchesLazy (per stanza and match: the full-match capture is bound, which excludes K3; every capture '
+                'expression has a quantifier other than Zero and, when One, a node in the match; matched nodes satisfy the syntax-node predicate '
+                'sok; lazy: the stanza index of each match is in range and captures are looked up by file-query index), GoodGlobals (graph-node '
+                'references in supplied global values are indices of the initial graph) and GoodCall (the function library does not panic on good '
+                'arguments and returns good values and a graph that is not smaller). The proof is an invariant on the interpreter state: every '
+                'graph-node reference in locals, scoped variables and the parameter buffer is an index of the current graph (P_graph_index), and '
+                'frame depth and parameter-buffer length are tracked exactly (P_locals_empty, P_params_underflow); the selected scan arm is always '
+                'an arm of the statement (P_regex_table); for the lazy interpreter in addition every store location inside a lazy value kept in '
+                'locals, thunks, scoped-variable cells or recorded statements is an index of the store, which only grows (P_store_index), stanza '
+                'indices are in range (P_stanza_index) and collected scoped definitions and their debug records have the same keys '
+                '(P_unreachable_scoped). strict_exec_only_missing_capture / lazy_exec_only_missing_capture: without the assumption that tree-sitter '
+                'binds every capture whose quantifier is One (GoodMatchesResolved: only the quantifier is resolved), the ONLY reachable site is '
+                'Value::from_nodes `.expect("missing capture")`; this site IS reachable in the implementation (finding K8: a fourth capture on one '
+                'query node is never bound by tree-sitter although its quantifier is One; witness theorems missing_capture_witness_strict/_lazy, '
+                'example c05_missing_capture_reachable, reproduced by `tsgv known K8`). stdlib_good_call: GoodCall holds of the standard library '
+                'with sok = the node is in the recorded tree. K2 (recursive shorthand) is OutOfFuel in the model, not Panic. Further: scan loops '
+                'always advance and terminate within S|subject| iterations for any regex engine with well-formed spans; no stdlib call panics or '
+                'diverges; the checker never panics on consistent query tables; witness lemmas for the known panic/divergence classes (K1 capture in '
+                'a shorthand body, K2 recursive shorthand, K3 unbound full-match capture, K8 unbound capture with quantifier One). Streams: outcome '
                 'class {Ok, Err, Panic, Hang} of File::execute and of error rendering vs the model, which has an explicit Panic outcome at every '
                 'unwrap/expect/index/unreachable! site. PARSER PART: Theorems in Props/C05parse.v (not Props/C05.v, which the execution part will '
                 'provide): parse_total - for every text, with externals that answer (OracleTotal: tree-sitter keeps the appended full-match capture '
@@ -30,11 +50,15 @@ CFG = {'streams': [{'name': 'C05x',
                 'panic sites are 7 (.expect on the full-match capture index) and 8 (merged Query::new(..).unwrap()), both decided by tree-sitter; '
                 'all six self.skip().unwrap() sites are unreachable; integer / $n overflow is an error, not a panic (also C07 '
                 'integer_literal_overflow). Correspondence stream C05p: see C07.py.',
- 'assumptions': ['real stack exhaustion and wall-clock time cannot be exhibited by the model; they are covered by the watchdog / child-process runs '
+ 'assumptions': ['hypotheses of the no-panic theorems about externals: tree-sitter binds every capture whose quantifier is One in every match (false '
+                 'for more than three captures on one query node: finding K8; the *_only_missing_capture theorems drop this hypothesis), reports '
+                 'stanza (pattern) indices in range and nodes of the tree (GoodMatches / GoodMatchesLazy); the checker has resolved the quantifier '
+                 'of every capture expression in stanza statements and the compiled regex table covers every scan arm (WellFormedFile); the function '
+                 'library satisfies GoodCall (proved for the stdlib)',
+                 'real stack exhaustion and wall-clock time cannot be exhibited by the model; they are covered by the watchdog / child-process runs '
                  'only',
                  'tree-sitter queries, regex crate and stdlib as in C01'],
- 'partial': ['exec_no_panic (for every checked file, well-formed match data and valid globals neither interpreter reaches a Panic site outside '
-             'K1-K3) is not proved as one theorem: it needs value-level invariants (graph-node references in range, balanced frames, valid store '
-             'locations); the pieces above are proved and the streams compare the Panic outcome class on every case',
+ 'partial': ['the execution part is proved for both interpreters (strict_exec_no_panic, lazy_exec_no_panic) and the parser part by Props/C05parse.v '
+             '(parse_total); error RENDERING (Display / display_pretty never panic) is not modelled: it is explored by stream C05x only',
              'real stack depth is not modelled: the model recursion is bounded by fuel; nesting up to 64 is exercised dynamically by stream C05p'],
  'extra_props': ['C05parse']}
